@@ -24,6 +24,26 @@ def _word(v):
     return u == ('field', ('local', 1), '0')
 
 
+def heap_types(ctx):
+    """the types whose values live in a heap box: those whose tag is at or above the threshold is_heap_allocated() tests"""
+    F = ctx.facts()
+    rs = ret_exprs(F, F.fn('object::Object::is_heap_allocated'))
+    tyvars = F.enum_variants(TYPE)
+    if len(rs) == 1:
+        iha = rs[0][1]
+        if is_binop(iha, 'Ge') or is_binop(iha, 'Gt'):
+            T = int_of(iha[3])
+            if T is None:
+                u = uncast(iha[3])
+                if u[0] == 'field' and u[1][0] == 'agg':
+                    T = int_of(u[1][3][0])
+            if T is not None:
+                if is_binop(iha, 'Gt'):
+                    T += 1
+                return {n for n, d in tyvars if d >= T}
+    raise CheckerError('cannot read the heap threshold from is_heap_allocated')
+
+
 def run(ctx, rep):
     F = ctx.facts()
     rep.rule('R15.1', 'tag space, mask/shift algebra and heap-box layout are mutually consistent')
@@ -298,3 +318,5 @@ def run(ctx, rep):
     rep.rule('R15.7', 'constant de-duplication never equates values of different type (tag compared on every path)')
     from rules import c10
     c10.check_dedup(ctx, rep, 'R15.7')
+    rep.rule('R15.8', 'the pool de-duplicates floats with ==, which merges 0.0 and -0.0: only sound while every pooled value is a literal payload as written (the lexer produces no sign)')
+    c10.check_literal_constants(ctx, rep, 'R15.8')
